@@ -70,6 +70,14 @@ OneSided(p, eps) == RLt(RMul(p, eps), Tiny) \/ RIsZero(p)
 StepLen(p, eps)  == IF OneSided(p, eps) THEN eps ELSE RMul(eps, p)
 Steps(p, eps)    == Vec(Len(p), LAMBDA i : StepLen(p[i], eps))
 Sided(p, eps)    == Vec(Len(p), LAMBDA i : OneSided(p[i], eps))
+\* The rule is documented for (and evaluated in) double precision: eps*param and 1e-6 are both rounded, so for a
+\* parameter whose exact product lies within a few units of the last place of the threshold the comparison may fall
+\* either way.  There (and only there) either stencil is a legitimate choice - but the choice is made once per
+\* parameter: evaluation points AND divisor belong to the same stencil, in every element the parameter takes part in.
+TieBand == "1/1000000000000000"
+NearTie(p, eps) == ~RIsZero(p) /\ RLeq(RAbs(RSub(RMul(p, eps), Tiny)), RMul(TieBand, Tiny))
+SidedChoices(p, eps) == {one \in [1..Len(p) -> BOOLEAN] : \A i \in 1..Len(p) : NearTie(p[i], eps) \/ one[i] = OneSided(p[i], eps)}
+StepsWith(p, eps, one) == Vec(Len(p), LAMBDA i : IF one[i] THEN eps ELSE RMul(eps, p[i]))
 
 Shift(p, i, d)         == [p EXCEPT ![i] = RAdd(p[i], d)]
 Shift2(p, i, di, j, dj) == Shift(Shift(p, i, di), j, dj)
@@ -87,12 +95,14 @@ HessElem(F(_), p, h, one, i, j) ==
                   RMul("4", RMul(h[i], h[j])))
         ELSE RDiv(RAdd(RSub(RSub(F(Shift2(p, i, h[i], j, h[j])), F(Shift(p, i, h[i]))), F(Shift(p, j, h[j]))), F(p)),
                   RMul(h[i], h[j]))
-HessFD(F(_), p, eps) == LET h == Steps(p, eps) one == Sided(p, eps) IN
+HessFDWith(F(_), p, eps, one) == LET h == StepsWith(p, eps, one) IN
     Mat(Len(p), Len(p), LAMBDA i, j : HessElem(F, p, h, one, i, j))
+HessFD(F(_), p, eps) == HessFDWith(F, p, eps, Sided(p, eps))
 GradElem(F(_), p, h, one, i) ==
     IF ~one[i] THEN RDiv(RSub(F(Shift(p, i, h[i])), F(Shift(p, i, RNeg(h[i])))), RMul("2", h[i]))
     ELSE RDiv(RSub(F(Shift(p, i, h[i])), F(p)), h[i])
-GradFD(F(_), p, eps) == LET h == Steps(p, eps) one == Sided(p, eps) IN Vec(Len(p), LAMBDA i : GradElem(F, p, h, one, i))
+GradFDWith(F(_), p, eps, one) == LET h == StepsWith(p, eps, one) IN Vec(Len(p), LAMBDA i : GradElem(F, p, h, one, i))
+GradFD(F(_), p, eps) == GradFDWith(F, p, eps, Sided(p, eps))
 
 \* the test functions: f(x) = 1/2 x^T Q x + b^T x + c   (Q symmetric)
 QEval(f, x)  == RAdd(RAdd(RHalf(Quad(x, f.Q, x)), RDot(f.b, x)), f.c)
@@ -119,6 +129,13 @@ ThetaFit(md, d) == RDiv(RSum([i \in LiveSet(md) |-> d[i]]), RSum([i \in LiveSet(
 NPar(md)      == Len(md.p) + (IF md.multinom THEN 1 ELSE 0)
 \* q: the full parameter vector (theta last when multinom)
 ParVec(md, th) == IF md.multinom THEN md.p \o <<th>> ELSE md.p
+\* Folded data (minor-allele spectra: entry i and its mirror n+1-i are indistinguishable) are compared with the folded
+\* model: mirror entries summed into the lower one, the middle entry kept, the upper half empty.  Folding is linear, so
+\* the folded model is again linear in the parameters, with folded components.
+FoldVec(v)    == LET n == Len(v) IN Vec(n, LAMBDA i : IF i < n + 1 - i THEN RAdd(v[i], v[n + 1 - i]) ELSE IF i = n + 1 - i THEN v[i] ELSE "0")
+LowerHalf(n)  == {i \in 1..n : i <= n + 1 - i}
+FoldModel(md) == [md EXCEPT !.B0 = FoldVec(md.B0), !.B = [a \in 1..Len(md.B) |-> FoldVec(md.B[a])],
+                            !.live = [i \in 1..Len(md.live) |-> md.live[i] /\ i \in LowerHalf(Len(md.live))]]
 \* the "design" of the model at (p, theta), computed once: means, first derivatives of the mean, live entries
 Design(md, th) ==
     LET n == Len(md.live) k == Len(md.p)
@@ -204,11 +221,20 @@ Chi2MixTail(x, w, cdf) ==
 (* and its address cannot be handed to another function.  KeyHoldsRef =    *)
 (* FALSE describes a key that is only a number derived from the address.   *)
 (***************************************************************************)
-CacheKey(obj, pt)        == <<obj.addr, pt>>
-Served(cache, obj, pt)   == IF CacheKey(obj, pt) \in DOMAIN cache THEN cache[CacheKey(obj, pt)] ELSE <<obj.model, pt>>
-CachePut(cache, obj, pt) == IF CacheKey(obj, pt) \in DOMAIN cache THEN cache
-                            ELSE [k \in DOMAIN cache \cup {CacheKey(obj, pt)} |->
-                                     IF k = CacheKey(obj, pt) THEN <<obj.model, pt>> ELSE cache[k]]
+\* A parameter point is a tuple of components (for a real call <<params, ns, grid_pts>>: everything the model function
+\* is evaluated with).  The specified key contains the function object and EVERY component of the point; parts = the
+\* set of components a key is built from (KeyPartsFull for a point of three components).  A key that leaves a
+\* component out serves the spectrum of another point (GodambeMC_cache_dropgrid.cfg: rejected by TLC).
+KeyPartsFull == {1, 2, 3}
+KeyOf(obj, pt, parts)          == <<obj.addr, [c \in parts |-> pt[c]]>>
+ServedK(cache, obj, pt, parts) == IF KeyOf(obj, pt, parts) \in DOMAIN cache THEN cache[KeyOf(obj, pt, parts)] ELSE <<obj.model, pt>>
+CachePutK(cache, obj, pt, parts) == IF KeyOf(obj, pt, parts) \in DOMAIN cache THEN cache
+                                    ELSE [k \in DOMAIN cache \cup {KeyOf(obj, pt, parts)} |->
+                                             IF k = KeyOf(obj, pt, parts) THEN <<obj.model, pt>> ELSE cache[k]]
+\* points of one component (the call histories of Trace_Godambe name a point by the statistic that is evaluated)
+CacheKey(obj, pt)        == KeyOf(obj, <<pt>>, {1})
+Served(cache, obj, pt)   == LET s == ServedK(cache, obj, <<pt>>, {1}) IN <<s[1], s[2][1]>>
+CachePut(cache, obj, pt) == CachePutK(cache, obj, <<pt>>, {1})
 Referenced(cache, obj)   == \E k \in DOMAIN cache : k[1] = obj.addr
 \* may the object be reclaimed once the caller drops it?
 Reclaimable(cache, obj, keyHoldsRef) == ~(keyHoldsRef /\ Referenced(cache, obj))
